@@ -232,6 +232,78 @@ def judge(ctx, shape, ann, leaf_types):
         ctx.samples.append({'parameter': texpr, 'model_entrypoints': sorted(want_names)})
 
 
+def judge_corpus(ctx):
+    """Real parameter types (or-trees with up to two dozen entrypoints, annotated inner nodes) and recorded calls."""
+    from pytezos.michelson.sections.parameter import ParameterSection
+    from rv.gen import corpus as C
+    from rv.hooks import extract as X
+    from rv.model import pack as PK
+    from rv.model import types as T
+    for k, c in enumerate(C.contracts()):
+        if not ctx.mine(k):
+            continue
+        eps = C.entrypoints(c['parameter'])
+        case = {'corpus_contract': c['name']}
+        ctx.case(('corpus', c['name']), nontrivial=len(eps) >= 2)
+        ctx.count('corpus_parameter_types')
+        try:
+            P = ParameterSection.match({'prim': 'parameter', 'args': [c['parameter']]})
+            listed = P.list_entrypoints()
+        except Exception as e:
+            ctx.violation('C13|list_entrypoints-raises|corpus', repr(e)[:300], case)
+            continue
+        ctx.count('list_entrypoints_calls')
+        if set(listed) != set(eps):
+            ctx.violation('C13|entrypoint-names|corpus', 'listed %r, model %r' % (sorted(listed), sorted(eps)), case)
+            continue
+        pt = T.from_micheline(C.strip(c['parameter']))
+        for name, cls in listed.items():
+            want_t = T.from_micheline(C.strip(eps[name][1]))
+            if X.type_of_class(cls) != want_t:
+                ctx.violation('C13|entrypoint-type|corpus', '%s: listed %r, model %r' % (name, X.type_of_class(cls), want_t), case)
+        for op in c['operations']:
+            d = op['parameters']
+            ep = d.get('entrypoint', 'default')
+            if ep not in eps:
+                continue
+            ocase = dict(case, operation=op['name'])
+            ctx.count('entrypoint_arguments')
+            ctx.count('corpus_calls')
+            path = eps[ep][0]
+            try:
+                want_full = PK.parse(C.wrap(d.get('value', {'prim': 'Unit'}), path), pt)
+            except Exception:
+                ctx.count('corpus_calls_not_readable_by_model')
+                continue
+            try:
+                ps = P.from_parameters(d)
+                full = PK.parse(ps.to_micheline_value(), pt)
+            except Exception as e:
+                ctx.violation('C13|from_parameters-raises|corpus', '%r ep=%s' % (e, ep), ocase)
+                continue
+            if full != want_full:
+                ctx.violation('C13|from_parameters-wrong-value|corpus', 'ep=%s -> %r, model %r' % (ep, full, want_full), ocase)
+                continue
+            try:
+                d2 = ps.to_parameters()
+                again = PK.parse(P.from_parameters(d2).to_micheline_value(), pt)
+            except Exception as e:
+                ctx.violation('C13|pair-roundtrip-raises|corpus', '%r ep=%s' % (e, ep), ocase)
+                continue
+            ctx.count('full_values')
+            # normal form: the innermost annotated node on the Left/Right path of the full value
+            lr, v, t = '', want_full, pt
+            while t[0] == 'or':
+                lr += v[0]
+                t, v = (t[1] if v[0] == 'L' else t[2]), v[1]
+            best = max((n for n, (p_, _) in eps.items() if lr.startswith(p_)), key=lambda n: len(eps[n][0]))
+            ctx.count('normal_form_comparisons')
+            if d2.get('entrypoint') != best:
+                ctx.violation('C13|pair-not-in-innermost-normal-form|corpus', 'ep=%s -> %r, innermost annotated node is %s' % (ep, d2.get('entrypoint'), best), ocase)
+            elif again != want_full:
+                ctx.violation('C13|pair-roundtrip-differs|corpus', 'ep=%s -> %r' % (ep, d2), ocase)
+
+
 def strip_for_bin(t):
     return t
 
@@ -277,12 +349,15 @@ def run(ctx):
         if ann is None:
             continue
         judge(ctx, shape, ann, {p: rng.choice(LEAF_TYPES) for p in leaves})
+    judge_corpus(ctx)
     ctx.require('list_entrypoints_calls', 100)
     ctx.require('full_values', 100)
     ctx.require('entrypoint_arguments', 100)
 
 
 def replay(ctx, case):
+    if 'corpus_contract' in case:
+        return judge_corpus(ctx)
     def tup(x):
         return 'L' if x == 'L' else (tup(x[0]), tup(x[1]))
     judge(ctx, tup(case['shape']), dict(case['annotations']), {k: LEAF_TYPES[v] for k, v in case['leaf_types'].items()})
